@@ -566,15 +566,17 @@ impl World for StreamWorld {
             let ad = if rng.chance(2, 5) {
                 None
             } else {
-                Some(match rng.below(4) {
-                    0 => *rng.pick(&[0usize, 1, 15, 16, 17, 31, 32, 33, 48]),
+                Some(match rng.below(8) {
+                    0 | 1 => *rng.pick(&[0usize, 1, 15, 16, 17, 31, 32, 33, 48, 63, 64, 65, 127, 128, 129, 255, 256, 257]),
+                    2 => rng.usize_below(400),
                     _ => rng.usize_below(41),
                 })
             };
             if tag & 2 == 2 {
                 self.last_was_special = true;
             }
-            return Some(Event::Push { mlen: draw_len(rng, 600), ad, tag, fill: rng.next_u64() % 1000 });
+            let mlen = if rng.chance(1, 60) { 4000 + rng.usize_below(66_000) } else { draw_len(rng, 600) };
+            return Some(Event::Push { mlen, ad, tag, fill: rng.next_u64() % 1000 });
         }
         // a wrong delivery, biased to land right after a rekey / REKEY / FINAL / wrap
         let p_wrong = if self.cfg.fault_free { 0 } else if self.last_was_special { 70 } else { 45 };
